@@ -58,7 +58,9 @@ def generator(ir: ExpressionIR, options):
         d["original_coefficient_positions"] = "NULL"
         d["original_coefficient_positions_init"] = ""
 
-    values = ", ".join(str(p) for p in points.flatten())
+    # float(): a float32 point prints as the shortest float32 decimal ("0.7"),
+    # which is another double than the point the tables were evaluated at
+    values = ", ".join(str(float(p)) for p in points.flatten())
     sizes = points.size
     d["points_init"] = f"static double points_{factory_name}[{sizes}] = {{{values}}};"
     d["points"] = f"points_{factory_name}"
